@@ -39,7 +39,7 @@ CLAIMED = {
     "C04": {"text": "lock-order obligations over the real call graph: the acquired-while-held relation of all library locks is acyclic, no opaque (user / delegate) "
                     "call happens under a non-re-entrant lock, callbacks are invoked outside _me_lock, shutdown / cancel paths take locks in the global order; "
                     "unit-level: no blocking call while a lock is held in cancel / add_done_callback / set_* / shutdown of every class",
-            "note": BASE_NOTE + "; absence of deadlock with USER locks or a bounded delegate pool saturated by nested submission is outside the contracts (depends on the delegate); RLock re-entrancy is modelled, fairness is not",
+            "note": BASE_NOTE + "; callbacks of a future never run under that future's own re-entrant lock, nested activations included (PRE obligation + nested-context unit variants + OP-3); absence of deadlock with USER locks or a bounded delegate pool saturated by nested submission is outside the contracts (depends on the delegate); RLock re-entrancy is modelled, fairness is not",
             "design_ref": "DESIGN.md section 5 C04"},
     "C05": {"text": "retry accounting proved on the real policy and executor code: should_retry / sleep_time are exactly the documented functions of (attempt, "
                     "exception class, max_attempts, sleep, exponent, max_sleep) for all numeric inputs; eval_policy consults the policy once per finished attempt; "
@@ -54,7 +54,7 @@ CLAIMED = {
             "design_ref": "DESIGN.md section 5 C06"},
     "C07": {"text": "throttle region invariant proved: under the lock, running count <= count at every release, FIFO hand-over in the submit loop iteration, "
                     "a finished delegate future decrements once and wakes the loop (W2), _eval_throttle total for int / None / callable counts, "
-                    "block_until_ready and cancel keep queue and gauge consistent",
+                    "block_until_ready and cancel keep queue and gauge consistent; a blocked submit() waits on an event of its own (sole waiter, clear-scan-wait order) that is set after every removal from the queue",
             "note": BASE_NOTE + "; 'no idle capacity' is the safety half (a free slot with queued work implies the event is set); scheduling of the woken thread is A-FAIR",
             "design_ref": "DESIGN.md section 5 C07"},
     "C08": {"text": "poll contracts proved: descriptor set = exactly the registered, unresolved futures (register / deregister / _clear_executor / __init__ order), "
@@ -99,7 +99,7 @@ CLAIMED = {
             "design_ref": "DESIGN.md section 5 C19"},
     "C20": {"text": "metric ghost counters: every gauge increment on a path is matched by exactly one decrement on every path that ends the counted condition (queue gauges of throttle / retry, "
                     "in-progress gauges of executors and futures), counters are bumped once per event (submit, shutdown, future outcome by kind), label values are the layer type",
-            "note": BASE_NOTE + "; the prometheus client is abstracted as labelled integer cells (inc/dec); sync / thread-pool executor gauges are not under contract yet",
+            "note": BASE_NOTE + "; the prometheus client is abstracted as labelled integer cells (inc/dec), one cell per (metric, type label, executor name): constructor and shutdown of every executor class hit the same cell",
             "design_ref": "DESIGN.md section 5 C20"},
 }
 NOT_APPLICABLE_REASON = {}
